@@ -1384,7 +1384,11 @@ func (val Value) LessThan(other Value) Value {
 		// if their binary representations differ slightly.
 		return False
 	}
-	return BoolVal(valF.Cmp(otherF) < 0)
+	// Numbers that are not equal are always ordered one way or the other,
+	// even when they hold the same binary value at different precisions
+	// (whose shortest decimal representations, which is what equality
+	// compares, differ), so we order by what equality compares.
+	return BoolVal(numberSetOrderCmp(valF, otherF) < 0)
 }
 
 // GreaterThan returns True if the receiver is greater than the other given
@@ -1429,7 +1433,9 @@ func (val Value) GreaterThan(other Value) Value {
 		// if their binary representations differ slightly.
 		return False
 	}
-	return BoolVal(valF.Cmp(otherF) > 0)
+	// (see LessThan for why this is not a direct comparison of the
+	// binary values)
+	return BoolVal(numberSetOrderCmp(valF, otherF) > 0)
 }
 
 // LessThanOrEqualTo is equivalent to LessThan and Equal combined with Or.
